@@ -360,7 +360,7 @@ def h_resolve(X):
     t = _ctx()
     opt = X.boolean("export_preserve_original_ip")
     peer = X.choose("peername", [None, ("192.168.0.1", 22), (HOST, 22), ("::1", 22)])
-    hosthdr = X.choose("host_header", [None, "other.example:81", HOST])
+    hosthdr = X.choose("host_header", [None, "other.example:81", HOST, "site.example"])  # last: differs from request.host, no port (transparent / reverse mode)
     method = X.choose("method", ["GET", "POST"])
     body = X.choose("body", ["", "b"])
     enc = X.boolean("accept_encoding")
@@ -378,11 +378,15 @@ def h_resolve(X):
     # independent expectation of host / port shown in the URL
     if hosthdr and hosthdr != HOST:
         h, _, p = hosthdr.partition(":")
-        ph, pp = h, int(p)
+        ph, pp = h, (int(p) if p else PORT)
     else:
         ph, pp = HOST, PORT
     addr = peer[0] if peer else None
-    exp = dict(method=method, url=f"http://{ph}:{pp}/p", content=body.encode(),
+    url_ = f"http://{ph}:{pp}/p"
+    if hosthdr and hosthdr != HOST and ":" not in hosthdr:
+        # the URL shown is the one the client asked for: a Host header without port names the scheme's default port
+        url_ = f"http://{ph}/p"
+    exp = dict(method=method, url=url_, content=body.encode(),
                headers=[(k, v) for k, v in headers if not (k == "host" and v == HOST)],
                resolve=f"{ph}:{PORT}:[{addr}]" if (opt and addr and ph != addr) else None)
     X.reach("exported")
